@@ -39,7 +39,16 @@ type Program struct {
 	allFuncs []*ssa.Function // functions (incl. anonymous) of pike packages
 }
 
+// loadFixture loads the positive-control package shipped with the checker.
+func loadFixture(dir string) (*Program, error) {
+	return loadProgramOpt(dir, false, "", true)
+}
+
 func loadProgram(repo string, whole bool, goarch string) (*Program, error) {
+	return loadProgramOpt(repo, whole, goarch, false)
+}
+
+func loadProgramOpt(repo string, whole bool, goarch string, fixture bool) (*Program, error) {
 	mode := packages.NeedName | packages.NeedFiles | packages.NeedCompiledGoFiles |
 		packages.NeedImports | packages.NeedTypes | packages.NeedTypesSizes |
 		packages.NeedSyntax | packages.NeedTypesInfo | packages.NeedModule
@@ -113,6 +122,9 @@ func loadProgram(repo string, whole bool, goarch string) (*Program, error) {
 		p.TypePkgs[pkgs[i].PkgPath] = pkgs[i].Types
 	}
 	for _, r := range requiredPkgs {
+		if fixture {
+			break
+		}
 		path := pikeMod
 		if r != "" {
 			path += "/" + r
